@@ -18,7 +18,7 @@ CHECKS = {
   design_ref='DESIGN.md §4 C02',
   technique='CrossHair symbolic execution of real code + z3 (unbounded ints), reference An+B oracle, replay'),
  'C18': dict(
-  text='Symbolic model checking of the real Inputs validators with unbounded symbolic integers (days-in-month and '
+  text='E2: each live value pattern (RE_NUM ... RE_DATETIME) is proved equivalent to the HTML microsyntax shape over unbounded strings (z3 regex theory). E1: symbolic model checking of the real Inputs validators with unbounded symbolic integers (days-in-month and '
        'ISO weeks-in-year decided for every year >= 1), of parse_value on strings assembled from symbolic digits and on '
        'arbitrary short strings over the microsyntax alphabet, and of :in-range/:out-of-range ordering on a one-input '
        'tree with symbolic min/max/value. Exhausted cells and budget-limited cells are listed separately.',
